@@ -34,8 +34,8 @@ class SymBinary:
 
 
 class SymText:
-    def __init__(self, items, ops=()):
-        self.items, self.ops = items, tuple(ops)
+    def __init__(self, items, ops=(), encoding=None):
+        self.items, self.ops, self.encoding = items, tuple(ops), encoding
 
     def split(self, sep=None, maxsplit=-1):
         return [SymText(self.items, self.ops + (("cut", sep),)), ""]
@@ -628,8 +628,90 @@ def check_message(rep, D, H, p, m, calls, pa, pv, fvars, mode, sigs, out):
     return nchk, nbad
 
 
+def string_kernel_checks(rep, H, tier):
+    """decode_string_lz / decode_string_lau (variable-length strings): the real functions on a symbolic region of B bytes
+    placed at a bit offset, every length byte value; oracle from the canboat field-type descriptions:
+    STRING_LZ = length byte + that many bytes; STRING_LAU = length byte (counting the two header bytes), encoding byte
+    (0 = UTF-16, 1 = ASCII/UTF-8), text; the next field starts 8*length bits further."""
+    U = H.R.utils
+    old = SymBytes.decode
+    SymBytes.decode = lambda self_, enc="utf-8", **k: SymText(list(self_.items), encoding=enc)
+    try:
+        for kind in ("lz", "lau"):
+            for B in ((2, 4) if tier == "quick" else (1, 2, 3, 4, 6)):
+                for off in (0, 16):
+                    region = [SymInt.var("s%d" % i, 8) for i in range(B)]
+                    low = z3.BitVec("low", off) if off else None
+                    bits = z3.Concat(*[z3.Extract(7, 0, r.t) for r in reversed(region)]) if B > 1 else z3.Extract(7, 0, region[0].t)
+                    if low is not None:
+                        bits = z3.Concat(bits, low)
+                    data = SymInt(z3.ZeroExt(1, bits))
+                    lenb = region[0]
+                    # well-formed: the announced length fits in the region (LAU: at least its 2 header bytes)
+                    assume = [truth(lenb <= (B - 1 if kind == "lz" else B))]
+                    if kind == "lau":
+                        assume.append(truth(lenb >= 2))
+                    fn = U.decode_string_lz if kind == "lz" else U.decode_string_lau
+                    try:
+                        paths, ex = explore(lambda: fn(data, off), max_paths=512, assumptions=assume)
+                    except Unsupported as e:
+                        rep.inconc("string kernel %s B=%d off=%d: %s" % (kind, B, off, e))
+                        continue
+                    rep.count("string_kernel_paths", len(paths))
+                    for pa in paths:
+                        st0, m0 = satisfiable(z3.And(pa.cond(), *assume))
+                        if st0 != "sat":
+                            continue
+
+                        def wit(m):
+                            return {"kind": "string", "fn": kind, "off": off, "region": bytes(m.eval(r.t, True).as_long() & 0xFF for r in region).hex(),
+                                    "low": (m.eval(low, True).as_long() if low is not None else 0)}
+                        if pa.kind != "return":
+                            rep.violation({"kind": "string-kernel-raises", "fn": kind, "exc": type(pa.value).__name__},
+                                          "decode_string_%s raises %r on a well-formed field (length byte fits the data)" % (kind, pa.value), wit(m0))
+                            continue
+                        res = pa.value
+                        text, skip = (res, None) if kind == "lz" else res
+                        hdr = 1 if kind == "lz" else 2
+                        if not isinstance(text, SymText):
+                            if text is None and kind == "lau":
+                                rep.violation({"kind": "string-kernel-none", "fn": kind}, "decode_string_lau returns no text for a well-formed field", wit(m0))
+                            elif text == "":
+                                text = SymText([], encoding=None)       # an empty result: zero characters returned
+                            elif isinstance(text, str):
+                                rep.violation({"kind": "string-kernel-content", "fn": kind}, "decode_string_%s returns the constant %r" % (kind, text), wit(m0))
+                                continue
+                            if not isinstance(text, SymText):
+                                continue
+                        k = len(text.items)
+                        cl = []
+                        for j in range(k):
+                            if hdr + j < B:
+                                cl.append(truth(SymInt.lift(text.items[j]) == region[hdr + j]))
+                            else:
+                                cl.append(z3.BoolVal(False))
+                        # bytes of the announced text that were not returned can only be trailing zero bytes (minimal-length to_bytes)
+                        nchars = (lenb - hdr) if kind == "lau" else lenb
+                        for j in range(k, B - hdr):
+                            cl.append(z3.Implies(truth(nchars > j), truth(region[hdr + j] == 0)))
+                        cl.append(truth(nchars >= k))
+                        if kind == "lau":
+                            cl.append(truth(SymInt.lift(skip) == lenb * 8))
+                            if text.encoding is not None:
+                                cl.append(z3.If(truth(region[1] == 0), z3.BoolVal(text.encoding == "utf-16"), z3.BoolVal(text.encoding == "utf-8")))
+                        st, m = prove(z3.And(*cl), assume + pa.pc, label="string-%s/B=%d" % (kind, B))
+                        if st == "sat":
+                            rep.violation({"kind": "string-kernel-content", "fn": kind},
+                                          "decode_string_%s: text / skip / encoding is not what the field's bytes say" % kind, wit(m))
+                        elif st == "unknown":
+                            rep.inconc("string kernel %s undecided" % kind)
+    finally:
+        SymBytes.decode = old
+
+
 def kernel_checks(rep, H, tier):
     """kernels that the per-definition run replaces by opaque results"""
+    string_kernel_checks(rep, H, tier)
     real = H.real
     # decode_bit_lookup: names of the set bits, ascending, joined by ', ' - for every table, arguments <= 8 bits (all values by path)
     D = db()
@@ -704,6 +786,22 @@ def replay(r):
         exp = ", ".join(table[b] for b in sorted(table) if raw >> b & 1)
         got = N.utils.decode_bit_lookup(raw, table)
         return got != exp, "got %r expected %r" % (got, exp)
+    if k == "string":
+        region = bytes.fromhex(r["region"])
+        data = (int.from_bytes(region, "little") << r["off"]) | r["low"]
+        fn = N.utils.decode_string_lz if r["fn"] == "lz" else N.utils.decode_string_lau
+        hdr = 1 if r["fn"] == "lz" else 2
+        try:
+            res = fn(data, r["off"])
+        except Exception as e:
+            return True, "decode_string_%s(%#x, %d) raised %r" % (r["fn"], data, r["off"], e)
+        text, skip = (res, None) if r["fn"] == "lz" else res
+        n = region[0] - (hdr - 1) - (1 if r["fn"] == "lau" else 0) if r["fn"] == "lau" else region[0]
+        raw = region[hdr:hdr + max(n, 0)]
+        enc = "utf-16" if (r["fn"] == "lau" and region[1] == 0) else "utf-8"
+        exp = raw.rstrip(b"\x00").decode(enc, errors="ignore") if enc == "utf-8" else raw.decode(enc, errors="ignore")
+        bad = text is None or (text.rstrip("\x00") != exp.rstrip("\x00")) or (skip is not None and skip != 8 * region[0])
+        return bad, "decode_string_%s region %s -> %r skip %r, expected %r skip %r" % (r["fn"], region.hex(), text, skip, exp, 8 * region[0])
     if k == "itb":
         b = N.message.int_to_bytes(r["value"])
         return int.from_bytes(b, "big") != r["value"], "bytes %r" % (b,)
